@@ -364,6 +364,7 @@ class HttpStreamSession:
 
     __slots__ = (
         "_call_state_bytes",
+        "_cancelled",
         "_capabilities",
         "_client",
         "_compression_level",
@@ -414,10 +415,16 @@ class HttpStreamSession:
         self._ipc_validation = ipc_validation
         self._pending_batches: list[AnnotatedBatch] = pending_batches or []
         self._finished = finished
+        self._cancelled = False
         self._header = header
         self._retry_config = retry_config
         self._compression_level = compression_level
         self._capabilities: HttpServerCapabilities | None = None
+
+    def _check_not_cancelled(self) -> None:
+        """Refuse further use of a cancelled session (mirrors ``StreamSession``)."""
+        if self._cancelled:
+            raise RpcError("ProtocolError", "Stream has been closed or cancelled", "")
 
     def _maybe_externalize_request(self, body: bytes) -> bytes:
         """Pre-emptively externalize *body* if cached caps say it's too large.
@@ -532,9 +539,11 @@ class HttpStreamSession:
             The output batch from the server.
 
         Raises:
-            RpcError: If the server reports an error or the stream has finished.
+            RpcError: If the server reports an error, the stream has finished,
+                or the session has been cancelled.
 
         """
+        self._check_not_cancelled()
         if self._state_bytes is None:
             raise RpcError("ProtocolError", "Stream has finished — no state token available", "")
 
@@ -621,10 +630,14 @@ class HttpStreamSession:
         """Iterate over output batches from a producer stream.
 
         Yields pre-loaded batches from init, then follows continuation tokens.
+        After ``cancel()`` iteration raises ``RpcError`` — also when resumed
+        from an iterator that was obtained before the cancel.
         """
+        self._check_not_cancelled()
         # Yield pre-loaded batches from init response
-        yield from self._pending_batches
-        self._pending_batches.clear()
+        while self._pending_batches:
+            yield self._pending_batches.pop(0)
+            self._check_not_cancelled()
 
         if self._finished:
             return
@@ -660,6 +673,7 @@ class HttpStreamSession:
                     batch, custom_metadata, self._external_config, self._on_log, reader.ipc_validation
                 )
                 yield AnnotatedBatch(batch=resolved_batch, custom_metadata=resolved_cm)
+                self._check_not_cancelled()
         except RpcError:
             if reader is not None:
                 _drain_stream(reader)
@@ -775,6 +789,8 @@ class HttpStreamSession:
         ``cancel()``, the session is marked finished; further ``exchange()``
         or iteration raises ``RpcError``.
         """
+        self._cancelled = True
+        self._pending_batches.clear()
         if self._finished or self._state_bytes is None:
             self._finished = True
             self._state_bytes = None
